@@ -581,9 +581,17 @@ func (c *Ctx) c13Drops() {
 		}
 	})
 	good := false
+	detached := ""
 	if nw != nil && len(nw.Call.Args) == 4 {
 		if mc, ok := stripConv(nw.Call.Args[3]).(*ssa.MakeClosure); ok {
 			cb := mc.Fn.(*ssa.Function)
+			withAnon(cb, func(g *ssa.Function) {
+				allInstrs(g, func(in ssa.Instruction) {
+					if gi, ok := in.(*ssa.Go); ok {
+						detached = c.ipos(gi)
+					}
+				})
+			})
 			allInstrs(cb, func(in ssa.Instruction) {
 				cl, ok := in.(*ssa.Call)
 				if !ok || !cl.Call.IsInvoke() || cl.Call.Method.Name() != "LogError" {
@@ -607,8 +615,11 @@ func (c *Ctx) c13Drops() {
 	if nw != nil {
 		pos = c.ipos(nw)
 	}
-	c.check(good, "L5", fname(f)+"/callback", pos, "the drop callback reports the count through the dropped-messages logger",
-		"the ring buffer's drop callback does not report the number of dropped messages through the supplied logger")
+	why := "the ring buffer's drop callback does not report the number of dropped messages through the supplied logger"
+	if detached != "" {
+		why = "the ring buffer's drop callback hands the report to a goroutine of its own (" + detached + ") instead of making it: the callback runs on the goroutine that drains the ring, which Close() waits for — a report made there has been made when Close() returns, a detached one may still be pending when the program closes the report's destination or exits, and the messages are then dropped without any count"
+	}
+	c.check(good && detached == "", "L5", fname(f)+"/callback", pos, "the drop callback reports the count through the dropped-messages logger, on the draining goroutine", why)
 	// the slow writer handed to the diode is the caller's
 	if nw != nil {
 		c.check(paramIndex(f, nw.Call.Args[0]) == 0, "L5", fname(f)+"/sink", c.ipos(nw), "ring buffer drains into the caller's writer", "the ring buffer does not drain into the writer supplied by the caller")
